@@ -360,7 +360,7 @@ theorem HInv.newSession {st : St} (h : HInv st) (p : Peer) : HInv (st.newSession
   unfold St.newSession
   constructor
   · intro t ht
-    have ht' : t ∈ st.sessions ++ [⟨st.next, st.nsess, p, 0, st.now, 0, 0, 0⟩] := ht
+    have ht' : t ∈ st.sessions ++ [⟨st.next, st.nsess, p, 0, st.now, 0, 0, 0, false, 0⟩] := ht
     show _ = List.countP _ st.holders
     rcases List.mem_append.mp ht' with h1 | h1
     · exact h.ref t h1
@@ -374,7 +374,7 @@ theorem HInv.newSession {st : St} (h : HInv st) (p : Peer) : HInv (st.newSession
     obtain ⟨t, ht, e⟩ := h.live y hy
     exact ⟨t, List.mem_append.mpr (Or.inl ht), e⟩
   · intro t ht
-    have ht' : t ∈ st.sessions ++ [⟨st.next, st.nsess, p, 0, st.now, 0, 0, 0⟩] := ht
+    have ht' : t ∈ st.sessions ++ [⟨st.next, st.nsess, p, 0, st.now, 0, 0, 0, false, 0⟩] := ht
     show _ < st.next + 1
     rcases List.mem_append.mp ht' with h1 | h1
     · have := h.fresh t h1; omega
